@@ -68,6 +68,7 @@ structure S where
   pendingInject : Option (Sig × Nat) := none
   implRoutes : List (Sig × Nat × List String) := []
   implCycle : Option (List String) := none
+  failCreate : List Node := []
   bad : Option String := none
 
 def firstDiff (want got : List String) : String :=
@@ -99,12 +100,20 @@ def handler : Handler S where
         | .noReceivers => "receivers" | .noExporters => "exporters" | .dupProcessor => "dupproc"
       let errs := sortStr ((validate s.cfg).map cls)
       (s, [if errs.isEmpty then "obs validate ok" else "obs validate err=" ++ ",".intercalate errs])
+    | ["failcreate", tok] =>
+      match parseNode tok with
+      | some n => ({ s with failCreate := s.failCreate ++ [n] }, [])
+      | none => (s, ["obs bad-op"])
+    -- an exporter / processor whose Consume returns an error (after recording / forwarding): routing does not change
+    -- (every next consumer is still called once — fan-out law, property C06), so the model has nothing to do
+    | ["failconsume", _] => (s, [])
     | ["build"] =>
       let b := build s.cfg
       let s := { s with built := some b, es := some (flowEdges s.cfg) }
-      match b with
-      | some .connector => (s, ["obs build err=connector"])
-      | some .cycle => (s, ["obs build err=cycle"])
+      match buildWith s.cfg (fun n => s.failCreate.contains n) with
+      | some (.build .connector) => (s, ["obs build err=connector"])
+      | some (.build .cycle) => (s, ["obs build err=cycle"])
+      | some .create => (s, ["obs build err=create"])
       | none =>
         let keys := sortStr (((nodes s.cfg).filter Node.isComp).map (fun n => nodeTok n ++ "=1"))
         (s, ["obs build ok", "obs nodes " ++ " ".intercalate keys])
@@ -144,7 +153,8 @@ def handler : Handler S where
     let modelRoutes (sg : Sig) (i : Nat) : Option (List String) :=
       (deliver (succOf fes) (fes.length + 2) (Node.recv sg i)).map (fun ws => sortStr (ws.map walkTok))
     let refDisagree : Option String :=
-      if someUnsupported cfg != unsup then some "unsupported-use"
+      if !(validate cfg).isEmpty then none   -- not well-formed (never built): the theorems' hypothesis `WF` does not hold
+      else if someUnsupported cfg != unsup then some "unsupported-use"
       else if !unsup && pipeCyclic cfg != cyc then some "connector-cycle"
       else if expectedKeys cfg != modelKeys then some "component-keys"
       else if b.isNone then
@@ -162,6 +172,9 @@ def handler : Handler S where
         if unsup then "prop reject=FAIL sig=C09/reject/accepted-unsupported-connector-use"
         else if cyc then "prop reject=FAIL sig=C09/reject/accepted-connector-cycle"
         else "prop reject=ok"
+      | some "err=create" =>
+        if unsup || cyc then "prop reject=FAIL sig=C09/reject/factory-called-for-a-rejected-configuration"
+        else if s.failCreate.isEmpty then "prop reject=FAIL sig=C09/reject/create-error-without-failing-factory" else "prop reject=ok"
       | some other =>
         if unsup || cyc then
           (if other = "err=connector" && !unsup then "prop reject=FAIL sig=C09/reject/wrong-error-class-connector"
